@@ -19,6 +19,36 @@ AREAS = {
     },
 }
 
+STORE_RULE = "seeded generator of scripts against one fresh instance (embedded NATS server + store.NewStore on a temp SQLite file): 2-6 nodes created edge-first or points-first, mirrors and diamonds, then 4-13 requests: node-point batches over an alphabet built to collide (types value/description/ab/a/tA, keys \"\"/0/1/b/k/10, both spellings of one identity in one batch, re-deliveries, stale and future times, values 0, +-Inf, 1e300, 5e-324, 2^53, random finite bit patterns, text incl. Unicode and newlines, data blobs, tombstone counts, origins), edge-point writes (delete / undelete / other types), structure changes, and refused requests (self edge, cycle through live or deleted edges, root tombstone, first edge without node type, NaN in node or edge batches); after every request the reply, everything received on up.> and a dump of every edge into every known node (nodes.all.<id>, deleted included) are recorded; a script is non-trivial when it has more than 3 requests; distinct by SHA-1 of its requests"
+STORE_TRUSTED = ["model of nodePoints/edgePoints/updateHash/up and the two write handlers: coq/theories/Store/Model.v (hand-written, tied by this run's correspondence: every reply, rebroadcast subject and payload, and every dump incl. every hash must agree)", 'bit-level CRC-32/IEEE and float64 predicates (NaN, >0, even) written in Coq and diffed against hash/crc32 and Go float semantics through the stored hashes and replies']
+STORE_ASSUME = ['SQLite, database/sql and NATS request/reply behave as documented (a write is visible to reads issued after its reply)', 'node ids are NATS subject tokens without quotes; strings are valid UTF-8 without NUL; times are non-zero and within int64 ns; edge tombstone points carry 0, 1 or 2']
+
+AREAS["C01"] = {
+    "area": "c01", "id": 1, "coq": ["Base", "Store", "Properties/C01.v"], "rule": STORE_RULE, "trusted": STORE_TRUSTED, "assumptions": STORE_ASSUME,
+    "level_text": "proof: C01 theorems (newest point per identity wins for every history, one row per identity, order/batching/duplication independence) "
+                  "about the executable model of nodePoints/edgePoints; the model is replayed against a real instance on generated histories and must reproduce every dump; "
+                  "the specification (newest delivered point per identity, all fields) is evaluated on the real dumps",
+    "level_note": "trusted: Coq kernel, extraction, OCaml driver, Go harness; modelled not verified: SQLite, NATS, protobuf transport; theorems assume distinct times per identity and no NaN (refused, C05)",
+}
+AREAS["C03"] = {
+    "area": "c03", "id": 3, "coq": ["Base", "Store", "Properties/C03.v"], "rule": STORE_RULE, "trusted": STORE_TRUSTED, "assumptions": STORE_ASSUME,
+    "level_text": "proof: the incremental XOR-Merkle update of the model preserves the from-scratch hash equation on every edge for every history and every acyclic graph shape "
+                  "(path-parity argument, fuel adequacy); the model's hashes must equal the instance's after every request, and every dumped hash is recomputed independently from the dump",
+    "level_note": "trusted as C01; CRC-32 collisions are outside the claim (delta != 0 is a hypothesis of the propagation clause); a change below an even number of paths cancels by the XOR definition itself (known finding K2)",
+}
+AREAS["C05"] = {
+    "area": "c05", "id": 5, "coq": ["Base", "Store", "Properties/C05.v"], "rule": STORE_RULE, "trusted": STORE_TRUSTED, "assumptions": STORE_ASSUME,
+    "level_text": "proof: in the model every request of a refused class is answered with an error, an error reply leaves state and rebroadcast stream untouched, reachable graphs stay acyclic "
+                  "so the upward recursions terminate; replies, dumps and up.> traffic of a real instance are compared with the model after every request and the refusal/no-trace specification is evaluated on them",
+    "level_note": "trusted as C01; a request that kills or wedges the instance is observed through worker processes with timeouts",
+}
+AREAS["C06"] = {
+    "area": "c06", "id": 6, "coq": ["Base", "Store", "Properties/C06.v"], "rule": STORE_RULE, "trusted": STORE_TRUSTED, "assumptions": STORE_ASSUME,
+    "level_text": "proof: the set of subjects the recursive publishers of the model publish on is exactly the reflexive-transitive upward closure (live edges for node points, all edges for edge points) "
+                  "for every acyclic graph; everything a real instance publishes on up.> is compared with the model and with the closure computed from the dump",
+    "level_note": "trusted as C01; NATS delivery order per connection is assumed to collect the messages published before a reply",
+}
+
 WIP = "not yet built in this round; the design (DESIGN.md section 6) claims it and the check is being added"
-NOT_CLAIMED = {pid: WIP for pid in ["C%02d" % i for i in range(1, 21)]}
+NOT_CLAIMED = {pid: WIP for pid in ["C%02d" % i for i in range(1, 21)] if pid not in AREAS}
 HOOK_COMMITS = []
